@@ -84,6 +84,12 @@ func (b *trieBuilder) resolve(ruleGts map[int][]int, maxDepth int) *trieNode {
 				ri.allTerms = true
 				continue
 			}
+			if len(b.c.states[b.c.out.FromTo[2*gt+1]].reduce) > 0 {
+				// The follow set of a terminal transition only lists the terminals shifted by its target
+				// state. When that state can also reduce, the tokens that may come next are not known
+				// here, so the conflict cannot be safely resolved with more lookahead.
+				return nil
+			}
 			for _, gt2 := range b.follow[gt] {
 				if gt2 == b.c.allTokensMarker {
 					ri.allTerms = true
